@@ -1233,7 +1233,14 @@ class If(BeginStatement):
 
     def tostr(self):
         assert len(self.content) == 1, repr(self.content)
-        return "IF (%s) %s" % (self.expr, str(self.content[0]).lstrip())
+        action = str(self.content[0]).lstrip()
+        # The action statement shares its source item (and therefore any
+        # statement label) with this IF statement. The label belongs in
+        # front of the IF only.
+        label = getattr(self.content[0].item, "label", None)
+        if label is not None and action.startswith(str(label)):
+            action = action[len(str(label)) :].lstrip()
+        return "IF (%s) %s" % (self.expr, action)
 
     def tofortran(self, isfix=None):
         return self.get_indent_tab(isfix=isfix) + self.tostr()
